@@ -367,6 +367,11 @@ static json gen_traj(const std::string &fname) {
   c["hasforce"] = hasforce;
   bool fullwidth = F.ppos_full > 0 && rbool(15);
   c["fullwidth"] = fullwidth;
+  const bool bigmag = fname == "dump" && rbool(15);
+  if (bigmag) {
+    c["bigmag"] = true;
+    if (rbool(70)) hasvel = hasforce = true, c["hasvel"] = true, c["hasforce"] = true;
+  }
   bool free = F.rel > 0;
   int nf = F.multi ? rcount(1, 5) : 1;
   long step = rbool(10) ? rl(1, 90000000) : rl(1, 2000);
@@ -388,7 +393,16 @@ static json gen_traj(const std::string &fname) {
     f["box"] = F.boxcomp ? gen_box(bk, free ? 9 : 7, fname == "gro") : gen_box(rbool(50) ? 1 : 0, 7, false);
     f["boxtype"] = explicit_type ? (bk == 0 ? "open" : bk == 1 ? "orth" : "tric") : "auto";
     std::vector<double> x, v, fo;
-    for (int i = 0; i < 3 * n; ++i) {
+    if (bigmag) {
+      // "%f" has no field width: 14-15 significant digits per value are legal (lines of 150 characters and more)
+      auto big = [](double scale, long lo, long hi) { return (rbool(50) ? 1.0 : -1.0) * double(rl(lo, hi)) / scale; };
+      for (int i = 0; i < 3 * n; ++i) x.push_back(big(1e9, 100000000000000L, 999999999999999L));
+      if (hasvel)
+        for (int i = 0; i < 3 * n; ++i) v.push_back(big(1e9, 100000000000000L, 999999999999999L));
+      if (hasforce)
+        for (int i = 0; i < 3 * n; ++i) fo.push_back(big(1e4, 100000000000L, 999999999999L));
+    }
+    for (int i = 0; i < 3 * n && !bigmag; ++i) {
       if (free && rbool(50))
         x.push_back(anyreal(50.0));
       else if (fullwidth)
@@ -396,7 +410,7 @@ static json gen_traj(const std::string &fname) {
       else
         x.push_back(coord(F.pneg, F.ppos, F.plat));
     }
-    if (hasvel)
+    if (hasvel && !bigmag)
       for (int i = 0; i < 3 * n; ++i) {
         if (free && rbool(50))
           v.push_back(anyreal(5.0));
@@ -405,7 +419,7 @@ static json gen_traj(const std::string &fname) {
         else
           v.push_back(coord(F.vneg, F.vpos, F.vlat, 2.0));
       }
-    if (hasforce)
+    if (hasforce && !bigmag)
       for (int i = 0; i < 3 * n; ++i) fo.push_back(free && rbool(50) ? anyreal(5000.0) : coord(1e6, 1e6, 4, 3000.0));
     f["x"] = x;
     f["v"] = v;
@@ -584,6 +598,7 @@ static Result roundtrip_body(const json &c) {
   if (fname == "dump") r.cls("dump:reduced-triclinic-form-only");
   if (fname == "pdb") r.cls("restriction:no-box(Write emits no CRYST1)");
   if (n >= 100) r.cls("beads>=100");
+  if (c.value("bigmag", false)) r.cls("dump:14-15-digit-values(long lines)");
   r.nontrivial = nf >= 2 || (F.boxcomp == 9 && bk >= 2) || (carry_v && carry_f);
 
   // ---- write
